@@ -196,6 +196,8 @@ class SourceDataWrapper(ABC):
             Structured numpy.ndarray objects with the consecutive chunks of the source data.
         """
 
+        self._check_equal_n_rows()
+
         if chunk_rows is None:
             chunk_rows = self._n_rows
             n_full_chunks = 1
@@ -219,6 +221,14 @@ class SourceDataWrapper(ABC):
         if remainder_rows:
             logger.debug(f"Loading chunk {total_chunks}/{total_chunks} ({remainder_rows} rows)")
             yield from self.load_chunk(n_full_chunks * chunk_rows, None)
+
+    def _check_equal_n_rows(self) -> None:
+        """Check that all data sets to be loaded have the same number of rows (see the note in __init__)."""
+
+        n_rows = {loc: self._data_source[loc].shape[0] for loc in self._mapping.values()}
+        if len(set(n_rows.values())) > 1:
+            raise ValueError("All data sets must have the same number of rows; "
+                             f"got {', '.join('{} in {}'.format(n, loc) for loc, n in n_rows.items())}")
 
     @classmethod
     def make_wrapper(cls, source: data_form_type, mapping: Optional[dict] = None,
